@@ -43,6 +43,7 @@ pub fn fault_name(f: &WireFault) -> &'static str {
         WireFault::ModelMade => "model-made",
         WireFault::Chain { .. } => "chain-of-elements",
         WireFault::Synthetic { .. } => "synthetic-structure",
+        WireFault::Graft { .. } => "chain-extension",
     }
 }
 
@@ -52,7 +53,7 @@ pub fn op_send(w: &mut World, key: usize, release: usize) {
         return;
     }
     let k = &w.keys[key];
-    let r = &k.releases[release % k.releases.len()];
+    let r = if release == usize::MAX { &k.releases[k.releases.len() - 1] } else { &k.releases[release % k.releases.len()] };
     let env = crate::exec::Envelope { key, counter: r.counter, msg: r.msg.clone(), sig: r.sig.clone() };
     w.event(format!("send k{} release#{} counter={} -> env{}", key, release % k.releases.len(), env.counter, w.envelopes.len()));
     w.envelopes.push(env);
@@ -344,6 +345,25 @@ pub fn apply_fault(w: &World, env: usize, fault: &WireFault) -> Mutated {
                     }
                 }
                 _ => m.skipped = true,
+            }
+        }
+        WireFault::Graft { child_env } => {
+            let b = other_env(*child_env);
+            let bpk = &w.keys[b.key].pubk;
+            if e.msg.len() == 24 + n && m.sig.len() > 4 && b.sig.len() > 4 && m.pk.len() >= 4 && bpk.len() >= 4 && w.keys[b.key].cfg.hash.n() == n {
+                let nspk_a = u32::from_be_bytes([e.sig[0], e.sig[1], e.sig[2], e.sig[3]]);
+                let nspk_b = u32::from_be_bytes([b.sig[0], b.sig[1], b.sig[2], b.sig[3]]);
+                let la = u32::from_be_bytes([m.pk[0], m.pk[1], m.pk[2], m.pk[3]]);
+                let lb = u32::from_be_bytes([bpk[0], bpk[1], bpk[2], bpk[3]]);
+                let mut s = (nspk_a.wrapping_add(1).wrapping_add(nspk_b)).to_be_bytes().to_vec();
+                s.extend_from_slice(&e.sig[4..]);
+                s.extend_from_slice(&e.msg);
+                s.extend_from_slice(&b.sig[4..]);
+                m.sig = s;
+                m.msg = b.msg.clone();
+                m.pk[0..4].copy_from_slice(&la.wrapping_add(lb).to_be_bytes());
+            } else {
+                m.skipped = true;
             }
         }
         WireFault::ModelMade => {
